@@ -89,6 +89,8 @@ func filesV2() *vschema.File {
 	return &vschema.File{Path: "vf/rsa.proto", Pkg: "vf.rs", Messages: aReq(2), Services: []vschema.Service{{Name: "A", Methods: []vschema.Method{
 		{Name: "Get", In: "vf.rs.AReq", Out: "vf.Rsp", Rule: with(get("/rs/a/{a}"), get("/rs/alt/{a}/{n}"), post("/rs/a", "*"), get("/rs/x/{a}"), get("/rs/ab/{a}/{b}"), get("/rs/v2/{a}"))},
 		{Name: "Put", In: "vf.rs.AReq", Out: "vf.Rsp", Rule: post("/rs/put", "*")},
+		// a method only the newer revision has
+		{Name: "Extra", In: "vf.rs.AReq", Out: "vf.Rsp", Rule: get("/rs/extra/{a}")},
 	}}}}
 }
 
